@@ -49,8 +49,10 @@ class Pack:
         for n in ("v0", "v1", "v2", "v3"):
             p.decls.append(("unsigned char", n, None, q))
         if self.shorts:
-            for n in ("s0", "s1"):
+            for n in ("s0", "s1") + (("s2", "s3") if self.shorts == "four" else ()):
                 p.decls.append(("unsigned short", n, None, q))
+            if self.shorts == "four":
+                p.decls.append(("unsigned short", "w0", 4, q))
         p.decls.append(("unsigned char", "a0", 4, q))
         p.decls.append(("unsigned char", "a1", 4, q))
         p.decls.append(("unsigned char", "r", max(self.cap, 2), "ramchip"))
@@ -301,11 +303,140 @@ def triples():
     return pk.programs
 
 
+# ----------------------------------------------------------------------------------------------- F6
+
+def precedence():
+    """two different binary operators in a row, both ways of grouping them, written with the fewest parentheses C
+    needs: the parser's precedence table decides what the text means"""
+    pk = Pack("precedence", cap=24, shorts=False)
+    v0, v1, v2 = VAR('v0'), VAR('v1'), VAR('v2')
+    ops = ['+', '-', '&', '|', '^']
+    for (a, b, c) in [(1, 1, 1), (6, 3, 5), (9, 12, 10)]:
+        setup = [SET(v0, NUM(a)), SET(v1, NUM(b)), SET(v2, NUM(c))]
+        for o1 in ops + ['<<', '>>']:
+            for o2 in ops:
+                if o1 == o2:
+                    continue
+                if o1 in ('<<', '>>'):
+                    # the shift count is a literal
+                    trees = [('bin', o2, ('bin', o1, v0, NUM(1)), v2), ('bin', o1, ('bin', o2, v0, v2), NUM(1)),
+                             ('bin', o2, v2, ('bin', o1, v0, NUM(1)))]
+                else:
+                    trees = [('bin', o2, ('bin', o1, v0, v1), v2), ('bin', o1, v0, ('bin', o2, v1, v2))]
+                for t in trees:
+                    k = pk.cell()
+                    pk.add(setup + [SET(R(k), t)])
+        # comparisons against the bitwise and additive operators (== binds tighter than &, looser than +)
+        for t in [('bin', '&', v0, ('cmp', '==', v1, v2)), ('cmp', '==', ('bin', '&', v0, v1), v2),
+                  ('cmp', '<', ('bin', '+', v0, v1), v2), ('bin', '|', ('cmp', '<', v0, v1), v2),
+                  ('cmp', '!=', v0, ('bin', '^', v1, v2)), ('bin', '^', ('cmp', '!=', v0, v1), v2),
+                  ('land', ('cmp', '==', v0, v1), ('bin', '|', v1, v2)), ('lor', ('bin', '&', v0, v2), ('cmp', '>', v1, v2))]:
+            k = pk.cell()
+            pk.add(setup + [SET(R(k), t)])
+    pk.flush()
+    return pk.programs
+
+
+def loop_headers():
+    """side effects inside the header of a `for`: they happen once, before the first test"""
+    pk = Pack("loop-headers", cap=12, shorts=False)
+    v0, v1 = VAR('v0'), VAR('v1')
+    for init in [('asg', v0, ('post', '++', v1)), ('asg', v0, ('post', '--', v1)), ('asg', v0, ('pre', '++', v1)),
+                 ('asg', VAR('X'), ('post', '++', v1)), ('asg', v0, ('bin', '+', ('post', '++', v1), NUM(1)))]:
+        for start in (3, 6, 9):
+            k = pk.cell(); k1 = pk.cell()
+            lv = init[1]
+            pk.add([SET(R(k), NUM(0)), SET(v1, NUM(start)),
+                    ('for', init, ('cmp', '<', lv, NUM(6)), ('post', '++', lv), ('block', [('expr', ('post', '++', R(k)))])),
+                    SET(R(k1), v1)], weight=3)
+    pk.flush()
+    return pk.programs
+
+
+# ----------------------------------------------------------------------------------------------- F7
+
+def wide():
+    """16-bit destinations: every unary / binary operator and compound assignment over 16-bit variables, constants,
+    8-bit variables and elements of 16-bit arrays, on values that carry or borrow between the bytes. One block per
+    program (the generator rejects some shapes as too complex; a rejection must not hide the others). The two bytes
+    of the result go to r[0], r[1] through the forms `r[0] = s; r[1] = s >> 8;`.
+    Left out (recorded findings): shifts by 1..7 written `s = t << n`, ordered comparisons `<=` `>`."""
+    progs = []
+    s0, s1, s2, v1, v2, X, Y = VAR('s0'), VAR('s1'), VAR('s2'), VAR('v1'), VAR('v2'), VAR('X'), VAR('Y')
+    wX, wY, w1 = ('idx', 'w0', X), ('idx', 'w0', Y), ('idx', 'w0', NUM(1))
+
+    def emit(name, stmts, res=s0):
+        pk = Pack("wide-" + name, cap=2, shorts="four")
+        pk.cell(); pk.cell()
+        pk.add(stmts + [SET(R(0), res), SET(R(1), ('bin', '>>', res, NUM(8)))])
+        pk.flush()
+        progs.extend(pk.programs)
+
+    pairs = [(0x00ff, 0x0001), (0x1234, 0x0fff), (0xff00, 0x0100), (0x0000, 0x0001), (0x8000, 0x8001)]
+    for (a, b) in pairs:
+        A, B = NUM(a), NUM(b)
+        lo = NUM(b & 0xff)
+        # operand shapes for a binary operator: (name, setup, left, right)
+        shapes = [("s,s", [SET(s1, A), SET(s2, B)], s1, s2), ("s,c", [SET(s1, A)], s1, B), ("c,s", [SET(s2, B)], A, s2),
+                  ("s,v", [SET(s1, A), SET(v1, lo)], s1, v1), ("v,s", [SET(v1, lo), SET(s1, A)], v1, s1),
+                  ("v,v", [SET(v1, NUM(a & 0xff)), SET(v2, lo)], v1, v2),
+                  ("wX,s", [SET(X, NUM(2)), SET(wX, A), SET(s2, B)], wX, s2), ("s,wY", [SET(Y, NUM(3)), SET(s1, A), SET(wY, B)], s1, wY),
+                  ("w1,c", [SET(w1, A)], w1, B)]
+        for op in ['+', '-', '&', '|', '^']:
+            for nm, setup, l, r in shapes:
+                emit("bin" + op + nm, setup + [SET(s0, ('bin', op, l, r))])
+            # compound assignment on every kind of 16-bit destination
+            for nm, setup, dst in [("s", [SET(s0, A)], s0), ("wX", [SET(X, NUM(1)), SET(wX, A)], wX),
+                                   ("wY", [SET(Y, NUM(2)), SET(wY, A)], wY), ("w1", [SET(w1, A)], w1)]:
+                for rn, rsetup, r in [("s", [SET(s2, B)], s2), ("c", [], B), ("v", [SET(v1, lo)], v1)]:
+                    emit("opasg" + op + nm + "," + rn, setup + rsetup + [('expr', ('opasg', op, dst, r))], res=dst)
+        for un in ('neg', 'bnot'):
+            emit(un + "s", [SET(s1, A), SET(s0, (un, s1))])
+            emit(un + "wX", [SET(X, NUM(2)), SET(wX, A), SET(s0, (un, wX))])
+            emit(un + "sum", [SET(s1, A), SET(s2, B), SET(s0, (un, ('bin', '+', s1, s2)))])
+            emit(un + "v", [SET(v1, lo), SET(s0, (un, v1))])
+            emit(un + "in", [SET(s1, A), SET(s2, B), SET(s0, ('bin', '&', s2, (un, s1)))])
+        # moves between widths and array elements
+        emit("mov-s", [SET(s1, A), SET(s0, s1)])
+        emit("mov-v", [SET(v1, lo), SET(s0, v1)])
+        emit("mov-wX", [SET(X, NUM(2)), SET(s1, A), SET(wX, s1)], res=wX)
+        emit("mov-from-wY", [SET(Y, NUM(1)), SET(wY, A), SET(s0, wY)])
+        emit("mov-w1", [SET(w1, A), SET(s0, w1)])
+        emit("shift8l", [SET(s1, A), SET(s0, ('bin', '<<', s1, NUM(8)))])
+        emit("shift8r", [SET(s1, A), SET(s0, ('bin', '>>', s1, NUM(8)))])
+        emit("tern", [SET(v1, NUM(1)), SET(s1, A), SET(s2, B), SET(s0, ('tern', v1, s1, s2))])
+        emit("tern0", [SET(v1, NUM(0)), SET(s1, A), SET(s2, B), SET(s0, ('tern', v1, s1, s2))])
+        # truth values and conditional values in a 16-bit destination, alone and inside an addition
+        for sel in (0, 1):
+            base = [SET(v1, NUM(sel)), SET(v2, NUM(3)), SET(s1, A), SET(s2, B)]
+            emit("tern-c%d" % sel, base + [SET(s0, ('tern', v1, NUM(1), NUM(2)))])
+            emit("tern-wide-c%d" % sel, base + [SET(s0, ('tern', v1, NUM(300), NUM(2)))])
+            emit("tern-mixed%d" % sel, base + [SET(s0, ('tern', v1, s1, NUM(7)))])
+            emit("tern-v%d" % sel, base + [SET(s0, ('tern', v1, v2, s2))])
+            emit("tern-plus%d" % sel, base + [SET(s0, ('bin', '+', ('tern', v1, s1, s2), NUM(1)))])
+            emit("plus-tern%d" % sel, base + [SET(s0, ('bin', '+', s1, ('tern', v1, NUM(1), NUM(2))))])
+            emit("plus-tern-cmp%d" % sel, base + [SET(s0, ('bin', '+', s1, ('tern', ('cmp', '==', v1, NUM(1)), NUM(1), NUM(2))))])
+            emit("tern-cmp%d" % sel, base + [SET(s0, ('tern', ('cmp', '==', v1, NUM(1)), s1, s2))])
+            emit("truth-eq%d" % sel, base + [SET(s0, ('cmp', '==', v1, NUM(1)))])
+            emit("truth-ne%d" % sel, base + [SET(s0, ('cmp', '!=', s1, s2))])
+            emit("truth-not%d" % sel, base + [SET(s0, ('not', v1))])
+            emit("truth-and%d" % sel, base + [SET(s0, ('land', v1, v2))])
+            emit("truth-or%d" % sel, base + [SET(s0, ('lor', v1, ('cmp', '==', v2, NUM(0))))])
+            emit("plus-truth%d" % sel, base + [SET(s0, ('bin', '+', s1, ('cmp', '==', v1, NUM(1))))])
+            emit("wX-tern%d" % sel, base + [SET(X, NUM(1)), SET(wX, ('tern', v1, s1, s2))], res=wX)
+        for upd in ('++', '--'):
+            for nm, setup, dst in [("s", [SET(s0, A)], s0), ("wX", [SET(X, NUM(1)), SET(wX, A)], wX), ("wY", [SET(Y, NUM(2)), SET(wY, A)], wY), ("w1", [SET(w1, A)], w1)]:
+                emit("post" + upd + nm, setup + [('expr', ('post', upd, dst))], res=dst)
+                emit("pre" + upd + nm, setup + [('expr', ('pre', upd, dst))], res=dst)
+    return progs
+
+
 # ----------------------------------------------------------------------------------------------- all
 
 def all_programs(families=None):
     fams = {"update-then-test": update_then_test, "update-then-loop": update_then_loop, "comparisons": comparisons,
-            "folded": folded_comparisons, "far": far_branches, "switch": switches, "triples": triples}
+            "folded": folded_comparisons, "far": far_branches, "switch": switches, "triples": triples,
+            "precedence": precedence, "loop-headers": loop_headers, "wide": wide}
     out = []
     for n, f in fams.items():
         if families is None or n in families:
